@@ -118,3 +118,145 @@ def load_corpus(pid: str) -> list[Case]:
         body = json.loads(f.read_text())
         out.append(Case(body["cfg"], list(body["ops"]), body.get("desc", {}), "corpus"))
     return out
+
+
+# ----------------------------------------------------------------------------- several callers per method
+def make_multi(inner, n: int = 2):
+    """Wrapper owning the real component; `SimpleTestCircuit` puts one AdapterTrans on every element of the
+    method lists, i.e. `n` independent transactions calling the *same* `read` / `write` / `peek` method."""
+    from amaranth import Elaboratable
+    from transactron import TModule
+
+    class MultiCaller(Elaboratable):
+        def __init__(self):
+            self.inner = inner
+            self.write = [inner.write] * n
+            self.read = [inner.read] * n
+            if hasattr(inner, "peek"):
+                self.peek = [inner.peek] * n
+            if hasattr(inner, "clear"):
+                self.clear = inner.clear
+
+        def elaborate(self, platform):
+            m = TModule()
+            m.submodules.inner = self.inner
+            return m
+
+    return MultiCaller()
+
+
+def probe_orders(sim, n: int = 2) -> tuple[list[int], list[int]]:
+    """Static priority among the callers of write / of read, read off the real scheduler: all callers attempt
+    while the method is ready; the one that runs is first.  (Which one it is is the manager's business.)"""
+    assert n == 2
+    tr = sim.run([{f"write[{k}]": k + 1 for k in range(n)}, {f"read[{k}]": 0 for k in range(n)}])
+    ww = [k for k in range(n) if tr[0][("write", k)] is not None]
+    rw = [k for k in range(n) if tr[1][("read", k)] is not None]
+    w0 = ww[0] if ww else 0
+    r0 = rw[0] if rw else 0
+    return [w0] + [k for k in range(n) if k != w0], [r0] + [k for k in range(n) if k != r0]
+
+
+def mfmt(ws, rs, ps, c, short: bool = False) -> str:
+    w = ",".join("-" if v is None else str(int(v)) for v in ws)
+    r = ",".join(str(int(x)) for x in rs)
+    if short:
+        return f"mcyc w={w} r={r}"
+    return f"mcyc w={w} r={r} p={','.join(str(int(x)) for x in ps)} c={int(c)}"
+
+
+def mparse(line: str):
+    t = dict(x.split("=") for x in line.split()[1:])
+    ws = [None if v == "-" else int(v) for v in t["w"].split(",")]
+    rs = [int(v) for v in t["r"].split(",")]
+    ps = [int(v) for v in t["p"].split(",")] if "p" in t else [0] * len(rs)
+    return ws, rs, ps, int(t.get("c", 0))
+
+
+def multi_sim_op(line: str, has_pc: bool) -> dict:
+    ws, rs, ps, c = mparse(line)
+    op = {}
+    for k, v in enumerate(ws):
+        op[f"write[{k}]"] = v
+        op[f"read[{k}]"] = 0 if rs[k] else None
+        if has_pc:
+            op[f"peek[{k}]"] = 0 if ps[k] else None
+    if has_pc:
+        op["clear"] = 0 if c else None
+    return op
+
+
+def multi_obs(r: dict, n: int, has_pc: bool) -> str:
+    s = "w=" + ",".join("0" if r[("write", k)] is None else "1" for k in range(n))
+    s += " r=" + ",".join("-" if r[("read", k)] is None else str(r[("read", k)]) for k in range(n))
+    if has_pc:
+        s += " p=" + ",".join("-" if r[("peek", k)] is None else str(r[("peek", k)]) for k in range(n))
+        s += f" c={0 if r[('clear',)] is None else 1}"
+    return s
+
+
+def random_multi_ops(rng, n_cyc: int, width: int, pw: float, pr: float, pp: float, pc: float, n: int = 2, short: bool = False) -> list[str]:
+    vals = Vals(rng, width)
+    out = []
+    for _ in range(n_cyc):
+        ws = [vals.next() if rng.random() < pw else None for _ in range(n)]
+        rs = [int(rng.random() < pr) for _ in range(n)]
+        ps = [int(rng.random() < pp) for _ in range(n)]
+        out.append(mfmt(ws, rs, ps, int(rng.random() < pc), short))
+    return out
+
+
+def reduce_multi(case: Case, out: list[str]):
+    """Multi-caller part of the monitors: an exclusive method (read, write) executes for at most one caller per
+    cycle and only for a caller that attempted; all attempting peek callers see the same thing.  Returns
+    (failure | None, single-port case, single-port observations) so that the single-port property monitor then
+    checks the union of all callers: every value delivered exactly once and in order, readiness, clear."""
+    if out[0] != "ok":
+        return None, case, out
+    sops, sout = [], ["ok"]
+    for k, (line, obs) in enumerate(zip(case.ops, out[1:])):
+        ws, rs, ps, c = mparse(line)
+        toks = obs.split()
+        f = dict(x.split("=") for x in toks)
+        has_pc = "p" in f
+        wd = [x == "1" for x in f["w"].split(",")]
+        rv = [optv(x) for x in f["r"].split(",")]
+        pv = [optv(x) for x in f["p"].split(",")] if has_pc else []
+        wex = [j for j, d in enumerate(wd) if d]
+        rex = [j for j, v in enumerate(rv) if v is not None]
+        if len(wex) > 1:
+            return f"cycle {k}: write executed for {len(wex)} callers in the same cycle (values {[ws[j] for j in wex]})", case, out
+        if len(rex) > 1:
+            return (f"cycle {k}: read executed for {len(rex)} callers in the same cycle: each received "
+                    f"{[rv[j] for j in rex]} - a value delivered more than once"), case, out
+        if any(ws[j] is None for j in wex) or any(not rs[j] for j in rex):
+            return f"cycle {k}: a method executed for a caller that did not attempt it", case, out
+        pw = None
+        if has_pc:
+            if any(v is not None and not ps[j] for j, v in enumerate(pv)):
+                return f"cycle {k}: peek executed for a caller that did not attempt it", case, out
+            seen = {pv[j] for j in range(len(ps)) if ps[j]}
+            if len(seen) > 1:
+                return f"cycle {k}: peek callers of the same cycle saw different things: {pv}", case, out
+            pw = next(iter(seen)) if seen else None
+        w_att = [v for v in ws if v is not None]
+        w = ws[wex[0]] if wex else (w_att[0] if w_att else None)
+        sops.append(fmt((w, int(any(rs)), int(any(ps)), c), short=not has_pc))
+        rest = " ".join(t for t in toks if t.split("=")[0] not in ("w", "r", "p", "c"))
+        s = f"w={int(bool(wex))} r={'-' if not rex else rv[rex[0]]}"
+        if has_pc:
+            s += f" p={'-' if pw is None else pw} c={f['c']}"
+        sout.append(s + " " + rest)
+    return None, case.with_ops(sops), sout
+
+
+def multi_nontrivial(case: Case, out: list[str]) -> bool:
+    """some cycle in which >= 2 callers attempt the same exclusive method and it executes (arbitration happened)"""
+    if out[0] != "ok":
+        return False
+    for line, obs in zip(case.ops, out[1:]):
+        ws, rs, _, _ = mparse(line)
+        f = fields(obs)
+        if (sum(v is not None for v in ws) > 1 and "1" in f["w"]) or (sum(rs) > 1 and f["r"].replace(",", "").replace("-", "")):
+            return True
+    return False
